@@ -19,6 +19,8 @@ package sign
 // Output gate (C01): the session's result is produced only for a signature its verifier accepts for exactly this
 // session's group key and message.
 //@ func (*round3).Finalize
+// (C04, C05) the round handed back carries the SAME session helper (so its FinalRoundNumber(), SelfID(), ... are those of this round)
+//@   ensures[C04,C05] result1 == nil ==> ((typeis(result0, *round.Output) ==> result0.(*round.Output).Helper == old(r.Helper)) && (typeis(result0, *round.Abort) ==> result0.(*round.Abort).Helper == old(r.Helper)))
 // (C04, C05) the round handed to the handler is one the session announced: its number is within the final round
 // number, so the handler holds a queue for it and waits for every party before finalizing it
 //@   ensures[C04,C05] result1 == nil ==> result0.Number() <= old(r.Helper.info.FinalRoundNumber)
@@ -56,6 +58,8 @@ package sign
 //@ spec fn scu_from(Int) Int
 //@ spec fn hadvu(Int) Int
 //@ func (*round1).Finalize
+// (C04, C05) the round handed back carries the SAME session helper (so its FinalRoundNumber(), SelfID(), ... are those of this round)
+//@   ensures[C04,C05] result1 == nil ==> ((typeis(result0, *round2) ==> result0.(*round2).Helper == old(r.Helper)) && (typeis(result0, *round.Output) ==> result0.(*round.Output).Helper == old(r.Helper)) && (typeis(result0, *round.Abort) ==> result0.(*round.Abort).Helper == old(r.Helper)))
 // (C04, C05) the round handed to the handler is one the session announced: its number is within the final round
 // number, so the handler holds a queue for it and waits for every party before finalizing it
 //@   ensures[C04,C05] result1 == nil ==> result0.Number() <= old(r.Helper.info.FinalRoundNumber)
@@ -107,6 +111,8 @@ package sign
 // and that the challenge is the verifier's schnorr_chal(R, Y, M) were attempted as assert_at obligations and are NOT
 // claimed: the solvers return unknown on them within the budget -- see DESIGN.md 10.8.)
 //@ func (*round2).Finalize
+// (C04, C05) the round handed back carries the SAME session helper (so its FinalRoundNumber(), SelfID(), ... are those of this round)
+//@   ensures[C04,C05] result1 == nil ==> ((typeis(result0, *round3) ==> result0.(*round3).Helper == old(r.Helper)) && (typeis(result0, *round.Output) ==> result0.(*round.Output).Helper == old(r.Helper)) && (typeis(result0, *round.Abort) ==> result0.(*round.Abort).Helper == old(r.Helper)))
 // (C04, C05) the round handed to the handler is one the session announced: its number is within the final round
 // number, so the handler holds a queue for it and waits for every party before finalizing it
 //@   ensures[C04,C05] result1 == nil ==> result0.Number() <= old(r.Helper.info.FinalRoundNumber)
